@@ -52,6 +52,28 @@ def make_graph(kinds, adj):
     return nodes
 
 
+def reference_depth(kinds, adj, nodes, depth):
+    """Same with a finite depth limit (list / dict nodes only: one nesting level
+    per node): a node reached at level k >= depth is a placeholder and is not
+    descended into; the recursion check comes first."""
+    markers = []
+    full = [0] * len(kinds)
+
+    def visit(i, stack, k):
+        if i in stack:
+            markers.append((type(nodes[i]).__name__, id(nodes[i])))
+            return
+        if k >= depth:
+            return
+        if k + 1 < depth:
+            full[i] += 1        # its int leaf is visible only one level further down
+        for j in range(len(kinds)):
+            if adj[i][j]:
+                visit(j, stack | {i}, k + 1)
+    visit(0, frozenset(), 0)
+    return markers, full
+
+
 def reference(kinds, adj, nodes):
     """Expected markers (in output order) and number of full printings of each
     node, from a DFS that cuts exactly where a node is reached again while it
@@ -145,7 +167,11 @@ class GraphCase(base.CaseBase):
                     del inner['zz_probe']
                 else:
                     inner.pop()
-        want_markers, want_full = reference(self.kinds, adj, nodes)
+        depth = self.params.get('depth')
+        if depth is None:
+            want_markers, want_full = reference(self.kinds, adj, nodes)
+        else:
+            want_markers, want_full = reference_depth(self.kinds, adj, nodes, depth)
         describe = lambda: 'kinds=%r adjacency=%r\noutput:\n%s\nexpected markers=%r full printings=%r' % (
             self.kinds, adj, text, want_markers, want_full)
         text = '<no output>'
@@ -153,9 +179,9 @@ class GraphCase(base.CaseBase):
             with warnings.catch_warnings(record=True) as wlist:
                 warnings.simplefilter('always')
                 if self.native or not self.traced:
-                    text = PKG.pformat(root, width=w, ribbon_width=rw)
+                    text = PKG.pformat(root, width=w, ribbon_width=rw, depth=depth)
                 else:
-                    text = pfbase.ptext(root, w, rw, traced_printers=True)
+                    text = pfbase.ptext(root, w, rw, traced_printers=True, depth=depth)
         except RecursionError:
             return self.fail('C13:printing-does-not-terminate', describe)
         except Exception as e:
@@ -175,7 +201,7 @@ class GraphCase(base.CaseBase):
                     return self.fail('C13:node-not-printed-in-full-each-time', describe)
             # no residue
             try:
-                again = PKG.pformat(root, width=w, ribbon_width=rw) if (self.native or not self.traced) else PKG.pformat(root)
+                again = PKG.pformat(root, width=w, ribbon_width=rw, depth=depth) if (self.native or not self.traced) else PKG.pformat(root, depth=depth)
                 other = PKG.pformat([1, {'a': (2,)}, [3]])
             except Exception as e:
                 return self.fail('C13:later-call-raises', lambda: repr(e))
@@ -246,6 +272,11 @@ def cases(tier, seed):
     for ks in ([('list', 'dict'), ('tuple', 'list')] if tier == 'quick' else list(itertools.product(K, repeat=2))):
         out.append({'name': 'n2:%s:after-aborted-print' % '-'.join(ks), 'family': 'graph',
                     'params': {'kinds': list(ks), 'abort_first': True, 'traced': False}, 'budget': 120.0})
+    # cycles under a finite depth limit (list / dict nodes)
+    for ks in [('list', 'dict'), ('dict', 'list', 'list')]:
+        for d in ((3,) if tier == 'quick' else (1, 2, 3, 5)):
+            out.append({'name': 'n%d:%s:depth=%d' % (len(ks), '-'.join(ks), d), 'family': 'graph',
+                        'params': {'kinds': list(ks), 'depth': d, 'traced': False}, 'budget': 200.0})
     # 3 nodes: partitioned by the first row of the matrix
     k3 = [('list', 'list', 'list'), ('list', 'dict', 'tuple'), ('dict', 'tuple', 'list')]
     if tier == 'thorough':
